@@ -187,6 +187,9 @@ func TestVerif_C47Policer(t *testing.T) {
 					ls.mu.Unlock()
 					deleted := len(dels) > 0
 					r.Distinct(fmt.Sprintf("%s|%s|%d|%v", ans.name, k.name, nSh, deleted))
+					if round%5 == 0 {
+						r.Sample(map[string]any{"round": round, "container_source_answer": ans.name, "object_kind": k.name, "shards": nSh, "local_copy_deleted": deleted})
+					}
 					r.Count("network_lookups_observed", net.asked)
 					for _, d := range dels {
 						if d.addr != addr {
